@@ -223,6 +223,11 @@ bool Instance::setup_environment(unsigned int flags) {
     // the pay-to-script-hash pattern is honoured where a scriptPubKey is: not in a scriptSig (a scriptPubKey follows), and
     // not in a witness script or a tapscript, which consensus runs as they are
     if (successor_script.size() || sigver != SigVersion::BASE) env->is_p2sh = false;
+    // with SIGPUSHONLY a scriptSig that is not push-only is refused before anything is evaluated
+    if (successor_script.size() && (flags & SCRIPT_VERIFY_SIGPUSHONLY) && !script.IsPushOnly()) {
+        error = SCRIPT_ERR_SIG_PUSHONLY;
+        env->operational = false;
+    }
     env->pretend_valid_map = pretend_valid_map;
     env->pretend_valid_pubkeys = pretend_valid_pubkeys;
     // an empty script is not finished while a scriptPubKey or a taproot commitment check is still pending
